@@ -466,8 +466,18 @@ func c17WriteSide(r *eng.Run) string {
 		w := c17ClientWriter(r, dst, 4096)
 		_, err = w.WriteThrough(data)
 	case 2:
+		// One CipherWriter, the payload in up to three writes at any offsets
+		// (the key position runs on across calls).
 		cw := wsutil.NewCipherWriter(dst, drawMask(r))
-		_, err = cw.Write(data)
+		rest := data
+		for i := 0; i < 2 && len(rest) > 1 && err == nil; i++ {
+			k := 1 + r.T.Int(sim.LSeg, minInt(len(rest)-1, 9))
+			_, err = cw.Write(rest[:k])
+			rest = rest[k:]
+		}
+		if err == nil {
+			_, err = cw.Write(rest)
+		}
 	default:
 		w := c17ClientWriter(r, dst, 1+r.T.Int(sim.LSize, 200))
 		_, err = w.Write(data)
